@@ -54,6 +54,12 @@ in_edge_indices = {}  # cache for the number of input edges per network node
 in_edge_vars = {}   # cache for the input variables that enter at each target operator
 
 
+def clear_edge_caches():
+    """Reset the per-circuit counters used to label generated edge operators and summed operator inputs."""
+    in_edge_indices.clear()
+    in_edge_vars.clear()
+
+
 #####################
 # class definitions #
 #####################
